@@ -23,6 +23,7 @@ type scen struct {
 	sub         uint64
 	size        int
 	g           *vlib.Rng
+	gTwin       *vlib.Rng // separate stream for the prefix-only-prev-hash deliveries (keeps the other generators' streams as they were)
 	k           *chainkit.Kit
 	blocks      []*rBlock // blocks[0] = genesis
 	byHash      map[[32]byte]*rBlock
@@ -56,7 +57,7 @@ const heavyBits = 0x201fffff
 // (EasyBits), any other block the bits of the last non-minimum block — walking back to the genesis node. That gives
 // branches with different bits (heavier-but-not-taller forks) above a 100-block base.
 func newScen(name string, alloc bool, sub uint64, size int, opts chainkit.Opts, genesisBits uint32) *scen {
-	s := &scen{name: name, alloc: alloc, sub: sub, size: size, g: vlib.NewRng(sub ^ 0xC06), byHash: map[[32]byte]*rBlock{},
+	s := &scen{name: name, alloc: alloc, sub: sub, size: size, g: vlib.NewRng(sub ^ 0xC06), gTwin: vlib.NewRng(sub ^ 0x7717C06), byHash: map[[32]byte]*rBlock{},
 		keys: map[string]*chainkit.Key{}, badTx: map[[32]byte]bool{}, opts: opts}
 	if alloc {
 		s.mem = memory.NewAllocator()
@@ -177,8 +178,12 @@ func (s *scen) addBlock(parent *rBlock, bo blockOpts) *rBlock {
 				rt.Ins = append(rt.Ins, outpoint{in.Input.Hash, in.Input.Vout})
 			}
 		}
+		for _, in := range t.TxIn {
+			rt.SigOpCost += 4 * refSigOps(in.ScriptSig)
+		}
 		for _, ou := range t.TxOut {
 			rt.Outs = append(rt.Outs, rOut{ou.Value, append([]byte{}, ou.Pk_script...)})
+			rt.SigOpCost += 4 * refSigOps(ou.Pk_script)
 		}
 		b.Txs = append(b.Txs, rt)
 	}
@@ -279,6 +284,8 @@ func realOutcome(res *chainkit.Result) string {
 			return "dup"
 		case strings.Contains(m, "parent not found"):
 			return "later"
+		case strings.Contains(m, "collides with"):
+			return "index-collision"
 		case strings.Contains(m, "hooks too deep"):
 			return "toodeep"
 		}
@@ -306,6 +313,8 @@ func realOutcome(res *chainkit.Result) string {
 			return "err:scripts"
 		case strings.HasPrefix(m, "out:"):
 			return "err:out-gt-in"
+		case strings.Contains(m, "too many sigops"):
+			return "err:sigops"
 		case strings.HasPrefix(m, "CommitBlock: MoveToBlock failed"):
 			return "movefailed"
 		}
@@ -387,6 +396,11 @@ func (s *scen) observe(kind, outcome, modelReply string, fullDump bool) {
 	r.Eval(kind, tipHex+chainkit.DumpHash(real)+outcome)
 	r.Hit("outcome/" + strings.SplitN(outcome, " ", 2)[0])
 	if strings.HasPrefix(outcome, "panic:") {
+		if strings.Contains(outcome, "undo") && strings.Contains(outcome, "no such file") && strings.HasPrefix(modelReply, "panic:undo file missing") {
+			// narrow class: a reorganisation reaching below the pruned undo files (more than 2560 blocks), predicted by the model
+			s.propFail("deep-reorg-pruned-undo-panic", "a reorganisation deeper than the 2560 undo files kept panics in UndoBlockTxs after the block's outputs were already deleted (the UTXO set is left half-undone): "+outcome)
+			return
+		}
 		s.propFail("panic", "gocoin panicked: "+outcome)
 		return
 	}
